@@ -43,6 +43,12 @@ type Case struct {
 	Query  string   `json:"query"`
 	Ctx    Ctx      `json:"ctx"`
 	Runs   int      `json:"runs"` // number of Process calls on the one plan object (C14)
+	// Rewin (C07 round 7, optional): the windows [from_ns, to_ns) of the runs after the first (run k > 0 asks for
+	// Rewin[k-1] under a context object of its own, as QueryRangeService.Tail builds one per tick; without an entry the window advances
+	// by one second on the one context object as before) - a tail hands every tick its own window
+	// to the one plan object. CtxMLRuns: the planner context of those runs as terms (filled only when Rewin is given).
+	Rewin     [][2]int64 `json:"rewin,omitempty"`
+	CtxMLRuns []string   `json:"ctx_ml_runs,omitempty"`
 	Class  []string `json:"class"`
 	AstCoq string   `json:"ast_coq,omitempty"`
 	CtxCoq string   `json:"ctx_coq,omitempty"`
@@ -337,6 +343,7 @@ func mkCtx(c Ctx) *shared.PlannerContext {
 
 func run(c *Case) {
 	c.SQL, c.Err, c.ErrText, c.AstCoq, c.AstML, c.ScriptCoq, c.ScriptML, c.Script1ML, c.Bp = nil, "", "", "", "", "", "", "", false
+	c.CtxMLRuns = nil
 	script, err := logql_parser.Parse(c.Query)
 	if err != nil {
 		c.Err, c.ErrText = "parse", err.Error()
@@ -398,7 +405,12 @@ func run(c *Case) {
 		c.Runs = 1
 	}
 	for k := 0; k < c.Runs; k++ {
-		if k > 0 { // live tail: the window advances, the plan object is re-used
+		if k > 0 && k-1 < len(c.Rewin) { // live tail with the windows the case names: a NEW context per tick, as QueryRangeService.Tail builds it
+			cx := c.Ctx
+			cx.FromNs, cx.ToNs = c.Rewin[k-1][0], c.Rewin[k-1][1]
+			pc = mkCtx(cx)
+			c.CtxMLRuns = append(c.CtxMLRuns, dumpCtx(coqx.ML, cx, pc))
+		} else if k > 0 { // live tail: the window advances, the plan object is re-used
 			pc.From = pc.From.Add(time.Second)
 			pc.To = pc.To.Add(time.Second)
 		}
